@@ -94,18 +94,29 @@ class C03:
         gshape = m.shape(self.mod, gnode)
         members = {x[1].split(":")[1] for x in (gshape[1] if gshape[0] == "union" else (gshape,)) if x[0] == "cls"}
         _, allnode = ctx.index.need_assign(GEO, "ALL_GEOMETRY_TYPES")
-        listed = [ast.unparse(e) for e in allnode.elts] if isinstance(allnode, (ast.List, ast.Tuple)) else None
+        listed = [ast.unparse(e) for e in allnode.elts] if isinstance(allnode, (ast.List, ast.Tuple)) \
+            and not any(isinstance(e, ast.Starred) for e in allnode.elts) else None
+        derived = False
         if listed is None:
-            ctx.undec("R03.1", f"{FILE} ALL_GEOMETRY_TYPES", "not a literal list")
-        else:
-            for label, got in (("Geometry union", members), ("ALL_GEOMETRY_TYPES", set(listed))):
-                if got == names and (label != "ALL_GEOMETRY_TYPES" or len(listed) == len(set(listed))):
-                    ctx.ok("R03.1", f"{FILE} {label}", f"== the {len(names)} BaseGeometry subclasses")
-                else:
-                    ctx.bad("R03.1", FILE, label.split()[0] if label.startswith("ALL") else "Geometry", label,
-                            f"{label} differs from the BaseGeometry subclasses: missing {sorted(names - got)}, extra "
-                            f"{sorted(got - names)}: objects of a missing type cannot be validated / are validated as another class",
-                            (allnode if label.startswith("ALL") else gnode).lineno)
+            # list(get_args(Geometry)) / tuple(...) / [*get_args(Geometry)]: the members of the union, in its order
+            inner = allnode
+            if isinstance(inner, ast.Call) and isinstance(inner.func, ast.Name) and inner.func.id in ("list", "tuple") and len(inner.args) == 1 and not inner.keywords:
+                inner = inner.args[0]
+            elif isinstance(inner, (ast.List, ast.Tuple)) and len(inner.elts) == 1 and isinstance(inner.elts[0], ast.Starred):
+                inner = inner.elts[0].value
+            if isinstance(inner, ast.Call) and len(inner.args) == 1 and not inner.keywords and ast.unparse(inner.args[0]) == "Geometry" \
+                    and getattr(ctx.index.resolve(self.mod, ast.unparse(inner.func)), "qual", None) in ("ext:typing.get_args", "ext:typing_extensions.get_args"):
+                listed, derived = sorted(members), True
+        for label, got in (("Geometry union", members), ("ALL_GEOMETRY_TYPES", None if listed is None else set(listed))):
+            if got is None:
+                ctx.undec("R03.1", f"{FILE} ALL_GEOMETRY_TYPES", "neither a literal list nor the members of the Geometry union")
+            elif got == names and (label != "ALL_GEOMETRY_TYPES" or len(listed) == len(set(listed))):
+                ctx.ok("R03.1", f"{FILE} {label}", f"== the {len(names)} BaseGeometry subclasses" + (" (the members of the Geometry union)" if derived and label.startswith("ALL") else ""))
+            else:
+                ctx.bad("R03.1", FILE, label.split()[0] if label.startswith("ALL") else "Geometry", label,
+                        f"{label} differs from the BaseGeometry subclasses: missing {sorted(names - got)}, extra "
+                        f"{sorted(got - names)}: objects of a missing type cannot be validated / are validated as another class",
+                        (allnode if label.startswith("ALL") else gnode).lineno)
         tags = {}
         for c in classes:
             fm = m.field_map(c)
@@ -555,6 +566,33 @@ class C03:
                 if not hits:
                     ctx.ok("R03.7", f"{k.module.relpath}:{k.node.lineno} {k.name}", "no custom serializer: coordinates are dumped as they are")
 
+    def _establishes(self, r, s, vp):
+        """(depth, n) when the rejection r leaves only inputs whose lists at that depth have at least n elements, else None."""
+        conj = [x for x in conjuncts(r.live) if x[0] != "inloop"]
+        # the rejecting test is the last conjunct; the ones before it must be what earlier rejections left behind
+        # (lower bounds on lengths), otherwise the rejection is conditional and establishes nothing
+        def lower_bound(x):
+            if self.depth(x, s, vp) is not None:
+                return True  # truthiness of a (sub-)list of the coordinates: it is not empty
+            return x[0] == "cmp" and x[1] in ("le", "lt") and x[2][0] == "const" and x[3][0] == "call" and x[3][1] == ("builtin", "len")
+        if conj and conj[-1][0] == "not" and self.depth(conj[-1][1], s, vp) is not None and all(lower_bound(x) for x in conj[:-1]):
+            return self.depth(conj[-1][1], s, vp), 1  # `if not X: raise` rejects the empty list
+        if not conj or conj[-1][0] != "cmp" or not all(lower_bound(x) for x in conj[:-1]):
+            return None
+        cj = conj[-1]
+        # len(X) < k  (stored as lt(len X, k)) / len(X) != k
+        if cj[1] in ("lt", "le") and cj[2][0] == "call" and cj[2][1] == ("builtin", "len") and cj[3][0] == "const" and isinstance(cj[3][1], int):
+            d = self.depth(cj[2][2][0], s, vp)
+            if d is not None:
+                return d, cj[3][1] + (1 if cj[1] == "le" else 0)
+        if cj[1] == "ne" and any(y[0] == "call" and y[1] == ("builtin", "len") for y in (cj[2], cj[3])):
+            ln = cj[2] if cj[2][0] == "call" else cj[3]
+            o = cj[3] if ln is cj[2] else cj[2]
+            d = self.depth(ln[2][0], s, vp)
+            if d is not None and o[0] == "const" and isinstance(o[1], int):
+                return d, o[1]
+        return None
+
     # ------------------------------------------------------------------ R03.8 no indexing before a length is established
     def check_index_safety(self, c: ClassInfo):
         """Coordinate validators run in definition order (base classes first).  A constant subscript X[i] of the coordinates
@@ -595,6 +633,20 @@ class C03:
                                 continue  # component of a two-name unpack: a wrong arity is a ValueError, not an IndexError
                         need = x[2][1] + 1 if x[2][1] >= 0 else -x[2][1]
                         have = established.get(d, 0)
+                        # a rejection earlier in the same validator whose loops (over the whole level) have run to completion
+                        # before this point holds for every element of the level
+                        for r in s.raises:
+                            if r.idx < e.idx and not (set(r.loops) & set(e.loops)):
+                                est = self._establishes(r, s, vp)
+                                if est is not None and est[0] == d:
+                                    have = max(have, est[1])
+                        if leaf_depth is not None and d == leaf_depth:
+                            # a `for time, frequency in <level>` loop that ended before this statement has forced arity 2
+                            for lid, L in s.loops.items():
+                                if L.kind == "for" and lid not in e.loops and getattr(L.node, "end_lineno", 10 ** 9) < e.lineno \
+                                        and self.depth(("elem", lid), s, vp) == spec["depth"] \
+                                        and ("," in (L.target_text or "") or s.unpacked.get(("elem", lid)) == 2):
+                                    have = max(have, 2)
                         LEN = ("call", ("builtin", "len"), (x[1],), ())
                         for cj in conjuncts(e.live):
                             if cj == x[1]:
@@ -618,31 +670,9 @@ class C03:
                                     v.node.lineno, witness={"coordinates": [] if d == 0 else [[]]})
             # what this validator establishes for the ones after it
             for r in s.raises:
-                conj = [x for x in conjuncts(r.live) if x[0] != "inloop"]
-                # the rejecting test is the last conjunct; the ones before it must be what earlier rejections left behind
-                # (lower bounds on lengths), otherwise the rejection is conditional and establishes nothing
-                def lower_bound(x):
-                    if self.depth(x, s, vp) is not None:
-                        return True  # truthiness of a (sub-)list of the coordinates: it is not empty
-                    return x[0] == "cmp" and x[1] in ("le", "lt") and x[2][0] == "const" and x[3][0] == "call" and x[3][1] == ("builtin", "len")
-                if conj and conj[-1][0] == "not" and self.depth(conj[-1][1], s, vp) is not None and all(lower_bound(x) for x in conj[:-1]):
-                    d = self.depth(conj[-1][1], s, vp)  # `if not X: raise` rejects the empty list
-                    established[d] = max(established.get(d, 0), 1)
-                    continue
-                if not conj or conj[-1][0] != "cmp" or not all(lower_bound(x) for x in conj[:-1]):
-                    continue
-                cj = conj[-1]
-                # len(X) < k  (stored as lt(len X, k)) / len(X) != k
-                if cj[1] in ("lt", "le") and cj[2][0] == "call" and cj[2][1] == ("builtin", "len") and cj[3][0] == "const" and isinstance(cj[3][1], int):
-                    d = self.depth(cj[2][2][0], s, vp)
-                    if d is not None:
-                        established[d] = max(established.get(d, 0), cj[3][1] + (1 if cj[1] == "le" else 0))
-                if cj[1] == "ne" and any(y[0] == "call" and y[1] == ("builtin", "len") for y in (cj[2], cj[3])):
-                    ln = cj[2] if cj[2][0] == "call" else cj[3]
-                    o = cj[3] if ln is cj[2] else cj[2]
-                    d = self.depth(ln[2][0], s, vp)
-                    if d is not None and o[0] == "const" and isinstance(o[1], int):
-                        established[d] = max(established.get(d, 0), o[1])
+                est = self._establishes(r, s, vp)
+                if est is not None:
+                    established[est[0]] = max(established.get(est[0], 0), est[1])
             if leaf_depth is not None:
                 for lid, L in s.loops.items():
                     if self.depth(("elem", lid), s, vp) == spec["depth"] and ("," in (L.target_text or "") or s.unpacked.get(("elem", lid)) == 2):
@@ -664,8 +694,16 @@ class C03:
                 if r.term[0] != "list" or len(r.term[1]) != 4:
                     ctx.undec("R03.3", f"{FILE}:{r.lineno} {c.name}.{v.name}", f"returned value is not a 4-element list: {show(r.term)[:60]}")
                     return
+                def unslice(t):
+                    # v[a:b:c] of the four coordinates (the length is guarded) is the list of the selected components
+                    if not isinstance(t, tuple) or not t:
+                        return t
+                    if t[0] == "sub" and t[1] == vp and t[2][0] == "slice" and all(y == NONE or (y[0] == "const" and isinstance(y[1], int)) for y in t[2][1:]):
+                        idx = range(4)[slice(*[None if y == NONE else y[1] for y in t[2][1:]])]
+                        return ("list", tuple(("sub", vp, ("const", i)) for i in idx))
+                    return tuple(unslice(y) if isinstance(y, tuple) else y for y in t)
                 try:
-                    fns = [compile_term(x, names)[0] for x in r.term[1]]
+                    fns = [compile_term(unslice(x), names)[0] for x in r.term[1]]
                 except Unknown as e:
                     ctx.undec("R03.3", f"{FILE}:{r.lineno} {c.name}.{v.name}", f"{e}")
                     return
@@ -698,7 +736,8 @@ class C03:
                          ("call", ("builtin", "list"), (("call", ("builtin", "reversed"), (vp,), ()),), ())]
             bad = None
             for o in weak_orderings(["first", "last"]):
-                env = {first: float(o["first"]), last: float(o["last"])}
+                # a line that passed the rejecting guards: at least two points (any length guard on the path is true)
+                env = {first: float(o["first"]), last: float(o["last"]), ("call", ("builtin", "len"), (vp,), ()): 5}
                 outs = []
                 for r in s.returns:
                     lv = peval(r.live, env)
@@ -752,11 +791,42 @@ class C03:
                         f"geometry_validate passes {k_}={show(v_)[:30]} to model_validate: the accepted set of the dict / attributes / json "
                         f"entry points is no longer that of the constructor (strict mode rejects tuples and numeric strings the "
                         f"constructor coerces)", calls[0].lineno)
+        SELF = ("global", f"{GEO}:geometry_validate", "func")
+
+        def via(mval):
+            """A mode handled by a tail call of the function itself in another mode on a derived object (`return
+            geometry_validate(json.loads(obj), mode="dict")`): (return event, derived object, other mode) or None."""
+            for r in s.returns:
+                t = r.term
+                if t[0] == "call" and t[1] == SELF and t[2] and peval(r.live, {mode: mval}) != ("const", False):
+                    m2 = dict(t[3]).get("mode") or (t[2][1] if len(t[2]) > 1 else ("const", "json"))
+                    if m2[0] == "const" and m2[1] != mval and m2[1] in ("json", "dict", "attributes") and via_ok(m2[1]):
+                        return r, t[2][0], m2[1]
+            return None
+
+        def via_ok(m2):
+            return not any(r.term[0] == "call" and r.term[1] == SELF and peval(r.live, {mode: m2}) != ("const", False) for r in s.returns)
+
+        def ev(t, mval):
+            v = via(mval)
+            if v is not None:
+                return peval(subst(t, {obj: v[1]}), {mode: v[2]})
+            return peval(t, {mode: mval})
+
+        expected = {c_.name: ("global", f"{GEO}:{c_.name}", "class") for c_ in self.classes()}
         for mval in ("json", "dict", "attributes"):
-            env = {mode: mval}
-            fa = peval(kws.get("from_attributes", ("const", False)), env)
-            cls = peval(call[1][1], env)
-            arg = peval(call[2][0], env) if call[2] else None
+            fa = ev(kws.get("from_attributes", ("const", False)), mval)
+            cls = ev(call[1][1], mval)
+            arg = ev(call[2][0], mval) if call[2] else None
+            # what the path to the validating call has established (hasattr(obj, "type") and the like) holds in its operands
+            asm = {}
+            for cj in conjuncts(ev(calls[0].live, mval)):
+                if cj[0] == "call":
+                    asm[cj] = True
+                elif cj[0] == "not" and cj[1][0] == "call":
+                    asm[cj[1]] = False
+            if asm:
+                cls = peval(cls, asm)
             want_fa = mval == "attributes"
             if fa != ("const", want_fa):
                 ctx.bad("R03.4", FILE, "geometry_validate", f"from_attributes in mode {mval!r}",
@@ -771,6 +841,13 @@ class C03:
                 tag = cls[2]
             elif cls[0] == "call" and cls[1] == ("attr", MAP, "get") and len(cls[2]) in (1, 2) and not cls[3] and cls[2][1:] in ((), (NONE,)):
                 tag = cls[2][0]  # MAP.get(tag): the same lookup, None for an unknown tag (which must then be rejected)
+            elif cls[0] == "ite":
+                # a literal tag -> class table read through .get(): a chain of comparisons of ONE quantity with the tags, which
+                # must give every tag its own class (the table itself is R03.1's)
+                atoms = [x for x in walk(cls) if x[0] == "cmp" and x[1] == "eq" and x[3][0] == "const" and isinstance(x[3][1], str)]
+                Ts = {x[2] for x in atoms}
+                if len(Ts) == 1 and all(peval(cls, {a: a[3][1] == k for a in atoms}) == g for k, g in expected.items()):
+                    tag = Ts.pop()
             if tag is not None:
                 if mval == "attributes":
                     good = tag == ("attr", obj, "type")
@@ -795,9 +872,23 @@ class C03:
         # a well-formed input of each mode reaches the validating call: none of the function's own rejections is live for it
         from sa.peval import truth as _truth
         from sa.sym import subst as _subst
+        decided_for = {}
         for mval in ("json", "dict", "attributes"):
-            def decided(t_):
-                r_ = peval(t_, {mode: mval})
+            def decided(t_, mval=mval, stage1=False, known=True):
+                if stage1 or via(mval) is None:
+                    r_ = peval(t_, {mode: mval})
+                else:
+                    r_ = ev(t_, mval)
+                # comparisons of one quantity with the type tags: the well-formed input carries a known tag, whichever it is
+                tcmp = [x for x in walk(r_) if x[0] == "cmp" and x[1] in ("eq", "ne") and x[3][0] == "const" and x[3][1] in expected]
+                if tcmp:
+                    outs = set()
+                    for kk in (list(expected) if known else ["<no such geometry type>"]):
+                        outs.add(decided1(peval(r_, {x: (x[3][1] == kk) == (x[1] == "eq") for x in tcmp}), mval, known))
+                    return outs.pop() if len(outs) == 1 else None
+                return decided1(r_, mval, known)
+
+            def decided1(r_, mval, known):
                 asg = {}
                 for x in walk(r_):
                     if x[0] == "call" and x[1] == ("builtin", "isinstance") and len(x[2]) == 2:
@@ -814,14 +905,21 @@ class C03:
                     elif x[0] == "cmp" and x[1] in ("in", "notin") and x[2] == ("const", "type"):
                         asg[x] = (mval != "attributes") == (x[1] == "in")
                     elif x[0] == "cmp" and x[1] in ("in", "notin") and x[3] == MAP:
-                        asg[x] = x[1] == "in"
+                        asg[x] = (x[1] == "in") == known
                     elif x[0] == "cmp" and x[1] in ("is", "isnot") and x[3] == NONE and x[2][0] == "call" and x[2][1] == ("attr", MAP, "get"):
-                        asg[x] = x[1] == "isnot"  # the type tag is a known one
+                        asg[x] = (x[1] == "isnot") == known  # the type tag is a known one
                     elif x[0] == "caught":
                         asg[x] = False
                 return _truth(peval(r_, asg)) if asg else _truth(r_)
+            decided_for[mval] = decided
             live_raises = [r for r in s.raises if not r.in_handler and decided(r.live) is not False]
             reach = decided(calls[0].live)
+            v_ = via(mval)
+            if v_ is not None:
+                # first leg: the input reaches the tail call, no own rejection is live before it
+                live_raises = [r for r in s.raises if not r.in_handler and decided(r.live, stage1=True) is not False] + live_raises
+                r1 = decided(v_[0].live, stage1=True)
+                reach = None if (r1 is None or reach is None) else (r1 and reach)
             if live_raises and decided(live_raises[0].live) is True:
                 ctx.bad("R03.4", FILE, "geometry_validate", f"mode {mval!r}: raise under `{show(live_raises[0].live)[-70:]}`",
                         f"geometry_validate(mode={mval!r}) rejects a well-formed {'JSON string' if mval == 'json' else ('dictionary' if mval == 'dict' else 'attribute object')} "
@@ -844,6 +942,13 @@ class C03:
         unknown = [r for r in s.raises if any(x == ("cmp", "notin", x[2], MAP) for x in conjuncts(r.live) if x[0] == "cmp" and x[1] == "notin")
                    or any(x[0] == "cmp" and x[1] == "is" and x[3] == NONE and x[2][0] == "call" and x[2][1] == ("attr", MAP, "get")
                           and x[2] == call[1][1] for x in conjuncts(r.live))]
+        if not unknown:
+            # by scenario: an input whose tag is none of the table's meets a live rejection of the function's own in every mode
+            def rejected(mval):
+                rs = [r for r in s.raises if not r.in_handler and decided_for[mval](r.live, known=False) is True]
+                return bool(rs) and all((r.term[1] if r.term[0] == "raise_from" else r.term)[1] == ("builtin", "ValueError") for r in rs)
+            if all(rejected(mv_) for mv_ in ("json", "dict", "attributes")):
+                unknown = [True]
         if unknown:
             ctx.ok("R03.4", site, "unknown tag rejected with ValueError")
         else:
@@ -858,7 +963,7 @@ def run_validation_subset(ctx: Ctx):
         ctx.rule("R03.1", "type table: union, ALL_GEOMETRY_TYPES, Literal tags, GEOMETRY_MAPPING", 13)
         ctx.rule("R03.2", "reject formula of each class == complement of the specified acceptance set (grid incl. all endpoints)", 35)
         ctx.rule("R03.3", "normalising validators produce normal form on every ordering", 2)
-        ctx.rule("R03.5", "validator discipline: after-mode on coordinates, returns value or raises convertible error", 12)
+        ctx.rule("R03.5", "validator discipline: after-mode on coordinates, returns value or raises convertible error", 9)
         ctx.rule("R03.6", "every (time, frequency) point is forced to have exactly two values", 5)
         c = C03(ctx)
         for k in c.check_table():
@@ -870,7 +975,7 @@ def run(ctx: Ctx):
     ctx.rule("R03.2", "reject formula of each class == complement of the specified acceptance set (grid incl. all endpoints)", 35)
     ctx.rule("R03.3", "normalising validators produce normal form on every ordering", 2)
     ctx.rule("R03.4", "geometry_validate: class from own tag, from_attributes only for 'attributes', errors converted", 9)
-    ctx.rule("R03.5", "validator discipline: after-mode on coordinates, returns value or raises convertible error", 12)
+    ctx.rule("R03.5", "validator discipline: after-mode on coordinates, returns value or raises convertible error", 9)
     ctx.rule("R03.6", "every (time, frequency) point is forced to have exactly two values", 5)
     ctx.rule("R03.7", "no serializer alters the dumped coordinates", 10)
     ctx.rule("R03.8", "no subscript of the coordinates before a length is established (validator order)", 4)
